@@ -411,6 +411,54 @@ func ruleG3(p *Prog, r *Report) {
 					resCap = mk
 				}
 			}
+			if jobCap != nil {
+				// workers range over the job channel until it is closed, and the launcher's deferred epilogue waits for
+				// them: the job channel must be closed on every way out of the launcher once workers run
+				isClose := func(y ssa.Instruction) bool {
+					switch z := y.(type) {
+					case *ssa.Call:
+						if bi, ok := z.Call.Value.(*ssa.Builtin); ok && bi.Name() == "close" && len(z.Call.Args) == 1 && sameChan(z.Call.Args[0], jobCap) {
+							return true
+						}
+					case *ssa.Defer:
+						if bi, ok := z.Call.Value.(*ssa.Builtin); ok && bi.Name() == "close" && len(z.Call.Args) == 1 && sameChan(z.Call.Args[0], jobCap) {
+							return true
+						}
+						if cl := closureOf(z.Call.Value); cl != nil {
+							found := false
+							eachInstr(cl, func(w ssa.Instruction) {
+								if c2, ok := w.(*ssa.Call); ok {
+									if bi, ok := c2.Call.Value.(*ssa.Builtin); ok && bi.Name() == "close" && len(c2.Call.Args) == 1 && sameChan(c2.Call.Args[0], jobCap) {
+										found = true
+									}
+								}
+							})
+							return found
+						}
+					}
+					return false
+				}
+				var exit ssa.Instruction
+				closedBefore := false
+				eachInstr(launcher, func(y ssa.Instruction) {
+					if _, isCall := y.(*ssa.Call); isCall && isClose(y) {
+						if y.Block() == g.Block() || y.Block().Dominates(g.Block()) {
+							closedBefore = true // all jobs queued and the channel closed before any worker starts
+						}
+					}
+				})
+				reachFrom(launcher, g, nil, func(y ssa.Instruction) bool {
+					if closedBefore || exit != nil || isClose(y) {
+						return true
+					}
+					if _, ok := y.(*ssa.Return); ok {
+						exit = y
+						return true
+					}
+					return false
+				})
+				r.Decide(exit == nil, R, "jobs-closed-on-every-exit:"+p.Name(launcher), p.InstrPos(g), "the job channel is closed (directly or by a registered defer) on every path from the launch to a return", "the launcher can return (for example on an error while queueing jobs) without closing the job channel: workers keep ranging over it and the deferred wg.Wait never returns")
+			}
 			if jobCap != nil && resCap != nil {
 				// sends that cannot block forever: inside a select together with another case
 				guarded := true
